@@ -73,7 +73,7 @@ default_config_str = """
             use_ctl = false
             # ctl_calc_method and fixed_dt used for CTL method
             ctl_calc_method = "linear_simple"
-            fixed_dt = -7.27220521664304e-08  # (1. / 100.) * (2. * np.pi / (86400. * 10.))**(-1)
+            fixed_dt = 1375.0987083139757  # (1. / 100.) * (2. * np.pi / (86400. * 10.))**(-1)
         [tides.models.layered]
             eccentricity_truncation_lvl = 6
             max_tidal_order_l = 2
